@@ -369,6 +369,69 @@ theorem sysRun_plain (r : SysReg) (hnd : (r.map (·.1)).Nodup) :
   unfold sysRun
   exact sysRunKeys_plain r r (find_of_mem_nodup r hnd)
 
+theorem find_filter_ne (r : SysReg) (a b : Nat) (h : a ≠ b) :
+    (r.filter (·.1 != a)).find? (·.1 == b) = r.find? (·.1 == b) := by
+  induction r with
+  | nil => rfl
+  | cons p rest ih =>
+    by_cases hp : p.1 = a
+    · have hpb : (p.1 == b) = false := by rw [hp]; simpa using h
+      have hpa : (p.1 != a) = false := by simp [hp]
+      rw [List.filter_cons, hpa, List.find?_cons, hpb]
+      simpa using ih
+    · have hpa : (p.1 != a) = true := by simpa using hp
+      simp only [List.filter_cons, hpa, if_true, List.find?_cons, ih]
+
+theorem sysRunKeys_once (once : Nat → Bool) : ∀ (ks r : SysReg), (ks.map (·.1)).Nodup →
+    (∀ p ∈ ks, r.find? (·.1 == p.1) = some p) →
+    sysRunKeys (onceBeh once) r (ks.map (·.1))
+      = (r.filter (fun q => !(once q.1 && (ks.map (·.1)).contains q.1)), ks)
+  | [], r, _, _ => by
+    simp only [List.map_nil, sysRunKeys, List.contains_nil, Bool.and_false, Bool.not_false]
+    congr 1
+    exact (List.filter_eq_self.mpr fun _ _ => rfl).symm
+  | p :: ks, r, hnd, h => by
+    have hp := h p List.mem_cons_self
+    rw [List.map_cons, List.nodup_cons] at hnd
+    have hne : ∀ q ∈ ks, p.1 ≠ q.1 := fun q hq e => hnd.1 (e ▸ List.mem_map_of_mem hq)
+    simp only [List.map_cons, sysRunKeys, hp]
+    cases ho : once p.1
+    · have hb : onceBeh once p.1 = [] := by simp [onceBeh, ho]
+      rw [hb]; simp only [sysApplyAll]
+      rw [sysRunKeys_once once ks r hnd.2 fun q hq => h q (List.mem_cons_of_mem _ hq)]
+      congr 1
+      apply List.filter_congr
+      intro q _
+      by_cases e : q.1 = p.1
+      · simp [e, ho]
+      · have : (q.1 == p.1) = false := by simpa using e
+        simp [List.contains_cons, this]
+    · have hb : onceBeh once p.1 = [.remove p.1] := by simp [onceBeh, ho]
+      rw [hb]; simp only [sysApplyAll, sysApply]
+      rw [sysRunKeys_once once ks _ hnd.2 fun q hq => by
+        rw [find_filter_ne r p.1 q.1 (hne q hq)]; exact h q (List.mem_cons_of_mem _ hq)]
+      congr 1
+      rw [List.filter_filter]
+      apply List.filter_congr
+      intro q _
+      by_cases e : q.1 = p.1
+      · simp [e, ho]
+      · have : (q.1 == p.1) = false := by simpa using e
+        have e' : (q.1 != p.1) = true := by simpa using e
+        simp [List.contains_cons, this, e']
+
+theorem sysRun_once (once : Nat → Bool) (r : SysReg) (hnd : (r.map (·.1)).Nodup) :
+    sysRun (onceBeh once) r = (r.filter (fun q => !once q.1), r) := by
+  unfold sysRun
+  rw [sysRunKeys_once once r r hnd (find_of_mem_nodup r hnd)]
+  congr 1
+  apply List.filter_congr
+  intro q hq
+  have : (r.map (·.1)).contains q.1 = true := by
+    simp only [List.contains_eq_mem, decide_eq_true_eq]; exact List.mem_map_of_mem hq
+  show (!(once q.1 && (r.map (·.1)).contains q.1)) = !once q.1
+  rw [this, Bool.and_true]
+
 /-- `remove` really removes: the action is no longer registered and a later `run` (by actions that
     do not re-add it) does not execute it -/
 theorem sys_remove_removes (r : SysReg) (a : Nat) :
